@@ -402,9 +402,16 @@ def r6(ctx):
         if f.name not in ("_load", "load") or f.cls is None or "row" not in f.params:
             continue
         for x in f.body_nodes():
-            if not (isinstance(x, ast.IfExp) and isinstance(x.orelse, ast.Constant) and x.orelse.value is None):
+            if not isinstance(x, ast.IfExp):
                 continue
-            body = x.body.value if isinstance(x.body, ast.Await) else x.body
+            none_arm = lambda e: isinstance(e, ast.Constant) and e.value is None  # noqa: E731
+            if none_arm(x.orelse) and not none_arm(x.body):
+                body, taken = x.body, True
+            elif none_arm(x.body) and not none_arm(x.orelse):
+                body, taken = x.orelse, False
+            else:
+                continue
+            body = body.value if isinstance(body, ast.Await) else body
             if not isinstance(body, ast.Call):
                 continue
             callee = p.resolve_call(f, body, fanout=False)[0]
@@ -412,7 +419,11 @@ def r6(ctx):
             if not valueish:
                 continue
             n += 1
-            truthy = not (isinstance(x.test, ast.Compare) and any(isinstance(o, (ast.IsNot, ast.NotEq)) for o in x.test.ops))
+            from ..facts import atoms as _atoms
+
+            # the value arm is taken exactly when the stored value is not None (however the test is spelled)
+            truthy = not any((not v) and isinstance(a, ast.Compare) and len(a.ops) == 1 and isinstance(a.ops[0], (ast.Is, ast.Eq))
+                             and isinstance(a.comparators[0], ast.Constant) and a.comparators[0].value is None for a, v in _atoms(x.test, taken))
             ctx.ob("R6", f"{f.cls.name}.{f.name}: optional `{unparse(body)[:50]}` is reconstructed under an `is not None` test", not truthy, func=f, node=x,
                    qualname=f.qualname, instance=f"optional:{unparse(body)[:60]}",
                    message=f"{f.cls.name}.{f.name}: `{unparse(x)[:90]}` tests truthiness: a saved falsy value (e.g. an enum member with value 0) is loaded back as None")
